@@ -123,15 +123,15 @@ Definition log_eqb (a b : log) : bool := list_eqb path_eqb a b.
 (* one tree with the observed value (the same for the four classes), the observed call log of
    Transformer / Transformer_NonRecursive / Transformer_InPlaceRecursive (the same list for the
    three) and the observed call log of Transformer_InPlace *)
-Definition tr_case := (list string * list string * stree * value * log * log)%type.
+Definition tr_case := (list string * list string * bool * stree * value * log * log)%type.
 
 Definition tr_check (c : tr_case) : bool :=
-  let '(rules, toks, t, v, lpost, lip) := c in
+  let '(rules, toks, vt, t, v, lpost, lip) := c in
   let T := sym_T rules toks in
   let ok (m : option (value * log)) (l : log) :=
     match m with Some (v', l') => value_eqb v' v && log_eqb l' l | None => false end in
-  ok (Some (transform_rec T t)) lpost && ok (transform_nr T t) lpost
-  && ok (transform_ip T t) lip && ok (Some (transform_ipr T t)) lpost.
+  ok (Some (transform_rec T vt t)) lpost && ok (transform_nr T vt t) lpost
+  && ok (transform_ip T vt t) lip && ok (Some (transform_ipr T vt t)) lpost.
 
 (* embedded: derivation, the value lark returned with transformer=T, the tree without *)
 Definition emb_case := (list string * list string * bool * dtree * value * stree)%type.
@@ -142,7 +142,7 @@ Definition emb_check (c : emb_case) : bool :=
   wf_dtree mp d
   && match embedded T mp d with Some v' => value_eqb v v' | None => false end
   && match embedded_run T mp (postorder d) with Some [v'] => value_eqb v v' | _ => false end
-  && match shape mp d with Some t' => stree_eqb t t' && value_eqb v (tr T t') | None => false end.
+  && match shape mp d with Some t' => stree_eqb t t' && value_eqb v (tr T true t') | None => false end.
 
 Inductive c16_case := CaseTR (c : tr_case) | CaseEMB (c : emb_case).
 Definition c16_check (c : c16_case) : bool :=
